@@ -447,7 +447,8 @@ def monitor_requests(case, obs):
         return []
     if case['kind'] in ('tab', 'flines'):
         return []
-    host = b''.join(obs['lualines'])
+    # the cart's code as the harness wrote it (ASCII), not as the implementation's reader returned it
+    host = ''.join(x + '\n' for x in case['host']).encode('latin-1')
     fl = _mon_files(obs)
     r = ['holds %s %s %s' % (h(host), fl, h(b''.join(obs['pi'])) if 'pi' in obs else 'ERR')]
     # the loaded cart: when the splice itself succeeded (judged by the request above) but the spliced text is
